@@ -102,6 +102,8 @@ def carrier_bits(t, schema):
 
 def build_c(schema: Schema, d: str, extra_harness=""):
     """generate + compile to IR. Returns (fcp, mod) or raises CompileError."""
+    from ..prime import prime, decoy_text
+    prime(decoy_text(schema), ("layout", "c"))
     fcp, names = generate_c(schema.text(), d)
     with open(os.path.join(d, "harness.c"), "w") as f:
         f.write(extra_harness)
@@ -123,6 +125,11 @@ def build_c(schema: Schema, d: str, extra_harness=""):
 
 class CompileError(Exception):
     pass
+
+
+def _dt(schema):
+    from ..prime import decoy_text
+    return decoy_text(schema)
 
 
 def _frame_parts(m, p):
@@ -228,7 +235,7 @@ def c06_case(args):
             for fn, (v, t, K) in zvars.items():
                 x = mdl.eval(v, model_completion=True).as_long()
                 fv[fn] = x
-            return {"kind": "c_encode", "schema_text": schema.text(), "fields": fv, "top": top,
+            return {"kind": "c_encode", "schema_text": schema.text(), "fields": fv, "top": top, "decoy_text": _dt(schema),
                     "carriers": {fn: K for fn, (v, t, K) in zvars.items()},
                     "kinds": {fn: t[0] for fn, (v, t, K) in zvars.items()},
                     "expected": {"id": mid, "dlc": (bits + 7) // 8,
@@ -270,7 +277,7 @@ def c06_case(args):
             return got, list(m.ub)
 
         def mk_dec(mdl):
-            return {"kind": "c_decode", "schema_text": schema.text(), "top": top,
+            return {"kind": "c_decode", "schema_text": schema.text(), "top": top, "decoy_text": _dt(schema),
                     "frame": [mdl.eval(b, model_completion=True).as_long() for b in fb],
                     "fields": [fn for fn, _, _ in fields],
                     "kinds": {fn: t[0] for fn, _, t in fields},
@@ -487,7 +494,7 @@ def c19_case(args):
 
             def mk(mdl):
                 ev = lambda x: mdl.eval(x, model_completion=True).as_long() if not isinstance(x, int) else x
-                return {"kind": "c_sched", "schema_text": schema.text(), "periods": eff, "mode": mode,
+                return {"kind": "c_sched", "schema_text": schema.text(), "periods": eff, "mode": mode, "decoy_text": _dt(schema),
                         "last_call": ev(lc0), "last_send": [ev(x) for x in ls0], "times": [ev(t) for t in ts],
                         "dev_bytes": [ev(z3.BitVec(f"dev{i}", 8)) for i in range(llsym.sizeof(mod, dev_ty))]}
 
